@@ -30,11 +30,13 @@ TARGETS = ['valjean.gavroche.stat_tests.bonferroni:TestBonferroni.__init__',
 BOUNDS = {
     'quick': {'bins': 'm <= 3 (shapes (1,), (2,), (3,), (1,2))  and (2,2) for Bonferroni', 'datasets_compared': '1; 2 for m <= 2',
               'p-values': 'symbolic reals in [0,1] or NaN (ties, zeros and ones included)', 'alpha': 'symbolic real in (0,1)',
-              'student_jobs': 'real TestStudent as first test: shapes (2,), finite cells, ndf None'},
+              'student_jobs': 'real TestStudent as first test: shapes (2,), finite cells, ndf None',
+              'shape-independence twins': '(2,)~(1,2)'},
     'thorough': {'bins': 'm <= 4 (shapes (1,), (2,), (3,), (4,), (2,2), (1,3), (2,1,2))', 'datasets_compared': '1; 2 for m <= 3; 3 for m <= 2',
                  'p-values': 'symbolic reals in [0,1] or NaN (ties, zeros and ones included)',
                  'alpha': 'symbolic real in (0,1)',
-                 'student_jobs': 'real TestStudent as first test: shapes (2,), (3,), (2,2), extended-real cells, ndf None/opaque'},
+                 'student_jobs': 'real TestStudent as first test: shapes (2,), (3,), (2,2), extended-real cells, ndf None/opaque',
+                 'shape-independence twins': '(2,)~(1,2), (3,)~(3,1), (3,)~(1,3)  (4 cells: more than 40 min per pair, outside)'},
 }
 ASSUMPTIONS = [
     'numpy.argsort replaced by a stub returning any permutation that sorts (NaN last, ties free); numpy.sort/searchsorted likewise',
@@ -308,7 +310,7 @@ def jobs(tier):
                 out.append((f'{kind}-{shape}-n{nds}', _job, dict(kind=kind, shape=shape, nds=nds, timeout_ms=t)))
     if tier == 'quick':
         out.append(('bonf-(2, 2)-n1', _job, dict(kind='bonf', shape=(2, 2), nds=1, timeout_ms=t)))
-    twins = [((2,), (1, 2))] if tier == 'quick' else [((2,), (1, 2)), ((3,), (3, 1)), ((4,), (2, 2)), ((2, 2), (4,))]
+    twins = [((2,), (1, 2))] if tier == 'quick' else [((2,), (1, 2)), ((3,), (3, 1)), ((3,), (1, 3))]     # 4 cells: > 40 min per job
     for a, b in twins:
         out.append((f'twin-{a}-{b}', _job, dict(kind='twin', shape=a, shape_b=b, timeout_ms=t)))
     st_jobs = [((2,), False, False)] if tier == 'quick' else \
